@@ -187,8 +187,23 @@ def out5(units, R, only=None):
         cursors = [k for k in adv if k in sto]
         if not cursors:
             continue
-        nfn += 1
         cfg = fn.cfg()
+        # an index that only measures (length counts what is read, then B[length] = 0 terminates a block filled by memcpy) is not
+        # a write cursor: a counter-indexed stream is one whose stores and whose counter steps lie on a common cycle
+        def _on_cycle(k_):
+            if '[' not in k_:
+                return True
+            snodes = {cfg.node_of_expr(ev.node['id']).id for ev in sto[k_] if cfg.node_of_expr(ev.node['id']) is not None}
+            anodes = {cfg.node_of_expr(ev.node['id']).id for ev in adv[k_] if cfg.node_of_expr(ev.node['id']) is not None}
+            for sn in snodes:
+                fwd = cfg.reachable(sn)
+                if any(an in fwd and sn in cfg.reachable(an) for an in anodes):
+                    return True
+            return False
+        cursors = [k for k in cursors if _on_cycle(k)]
+        if not cursors:
+            continue
+        nfn += 1
         cs = set(cursors)
         obligations = {}   # event id -> (ok, detail, node)
 
